@@ -302,7 +302,9 @@ fn canonical_verdict(cfg: &ExchCfg, lazy: bool) -> Result<Option<String>, String
                     let (n, resp) = r.try_response(&stream[off..]).map_err(|e| format!("try_response: {:?}", e))?;
                     off += n;
                     // an interim response (1xx other than 101) is handed out; the caller asks again for the final one
-                    let interim = resp.as_ref().map(|x| x.status().is_informational() && x.status().as_u16() != 101).unwrap_or(false) && off < stream.len();
+                    // (only while the server script has a further message: a 1xx that ends the script is its final answer)
+                    let last_start = cfg.layout.last().map(|l| l.0).unwrap_or(0);
+                    let interim = resp.as_ref().map(|x| x.status().is_informational() && x.status().as_u16() != 101).unwrap_or(false) && off <= last_start && cfg.server.len() > 1;
                     if resp.is_some() && r.can_proceed() && !interim {
                         break;
                     }
